@@ -2,6 +2,7 @@ package pat
 
 import (
 	"sort"
+	"strconv"
 	"strings"
 
 	"pgregory.net/rapid"
@@ -50,6 +51,102 @@ var litChunks = []string{
 }
 
 var burstBytes = []string{"a", "b", "c", "d", "e", "f", "g", "1", "-", ".", "中", "你"}
+
+// wideBytes: first bytes for bursts of a dozen to several dozen siblings (disjoint from the value alphabet x y z 7 8 9)
+var wideBytes = func() []string {
+	var out []string
+	for _, c := range "abcdefghijklmnopqrstuvw123456-._~ABCDEFGHIJKLMNOPQRSTUVW" {
+		out = append(out, string(c))
+	}
+	return append(out, "中", "你", "é")
+}()
+
+// genScale adds structures of a size beyond the usual to the pool (one pool in a dozen gets one of them):
+// a node with a dozen to several dozen literal children (below the root, below a pool pattern's prefix, or below a
+// parameter), several dozen regexp siblings that differ in the byte behind the token (each is tried and given up in
+// turn), or routes with nine to thirty-four parameters that share all but their tail, next to a catch-all.
+func genScale(t *rapid.T, cfg Cfg, pool []string, add func(string)) {
+	pick := func(k int, label string) []string {
+		perm := rapid.Permutation(wideBytes).Draw(t, label)
+		return perm[:k]
+	}
+	switch rapid.IntRange(0, 2).Draw(t, "scaleKind") {
+	case 0:
+		b := newBuilder(cfg)
+		rivalBase := ""
+		switch rapid.IntRange(0, 2).Draw(t, "wideUnder") {
+		case 0:
+			b.sb.WriteString("/")
+		case 1:
+			b.sb.WriteString(rapid.SampledFrom([]string{"/w/", "/a/b/", "w"}).Draw(t, "widePrefix"))
+		default:
+			// below a parameter; and a parameter of another kind beside it that leads to some of the same children, so
+			// that the kind order at the parameter's position decides
+			pre := rapid.SampledFrom([]string{"/", "/u/", ""}).Draw(t, "wideParamPrefix")
+			b.sb.WriteString(pre)
+			b.addParam(t)
+			if b.lastParam.Kind == Named {
+				rivalBase = pre + `{q:\d+}/`
+			} else {
+				rivalBase = pre + "{q}/"
+			}
+			b.sb.WriteString("/")
+			b.lastParam = nil
+		}
+		base := b.sb.String()
+		chosen := pick(rapid.IntRange(11, 45).Draw(t, "wideK"), "wideBytes")
+		for _, c := range chosen {
+			s := base + c
+			if rapid.IntRange(0, 5).Draw(t, "wideTail") == 0 {
+				s += rapid.SampledFrom([]string{"/", "/{q3}", "1", ".html"}).Draw(t, "wideTailText")
+			}
+			add(s)
+		}
+		if rivalBase != "" {
+			for _, c := range chosen[:rapid.IntRange(1, 3).Draw(t, "wideRivalKids")] {
+				add(rivalBase + c)
+			}
+		}
+		if rapid.Bool().Draw(t, "wideRival") {
+			// something of lower priority beside them: a parameter sibling of the wide node
+			add(base + rapid.SampledFrom([]string{"{q4}", `{q4:\d+}`, "{-q4}", `{q4:\d+}/{q2}`}).Draw(t, "wideRivalTok"))
+		}
+	case 1:
+		base := rapid.SampledFrom([]string{"/", "/r/", "", "/a/{n}/"}).Draw(t, "rxPrefix")
+		tok := rapid.SampledFrom([]string{`{x:\d+}`, `{x:[x-z7-9]+}`, `{-x:\d+}`}).Draw(t, "rxTok")
+		for _, c := range pick(rapid.IntRange(12, 45).Draw(t, "rxK"), "rxBytes") {
+			if c[0] >= '0' && c[0] <= '9' {
+				continue // the class-disjoint follow rule
+			}
+			add(base + tok + c)
+		}
+		add(base + "{rest}")
+	default:
+		k := rapid.IntRange(9, 34).Draw(t, "longK")
+		var sb strings.Builder
+		sep := rapid.SampledFrom([]string{"/", "-", "/s/"}).Draw(t, "longSep")
+		sb.WriteString("/")
+		for i := 0; i < k; i++ {
+			if i > 0 {
+				sb.WriteString(sep)
+			}
+			if i%3 == 1 {
+				sb.WriteString("{p" + strconv.Itoa(i) + `:\d+}`)
+			} else {
+				sb.WriteString("{p" + strconv.Itoa(i) + "}")
+			}
+		}
+		long := sb.String()
+		add(long + "/end")
+		add(long + "/other")
+		if rapid.Bool().Draw(t, "longCatchAll") {
+			add("/{path}")
+		}
+		if rapid.Bool().Draw(t, "longShort") {
+			add("/{p0}" + sep + `{p1:\d+}`)
+		}
+	}
+}
 
 // regexp rules: one character class under a quantifier, no braces.
 var rulesWitness = []string{`\d+`, `\w+`, `[^/]+`, `[x-z7-9]+`, `\d*`}
@@ -232,6 +329,9 @@ func GenPool(t *rapid.T, cfg Cfg, n int) []string {
 		}
 		seen[s] = true
 		pool = append(pool, s)
+	}
+	if rapid.IntRange(0, 11).Draw(t, "scale") == 0 {
+		genScale(t, cfg, pool, add)
 	}
 	for tries := 0; len(pool) < n && tries < 4*n+8; tries++ {
 		mode := rapid.IntRange(0, 11).Draw(t, "poolMode")
